@@ -48,4 +48,16 @@ SpaceOK(mins, maxs, space) ==
 IndexOK(mins, maxs, space, v, idx) ==
   /\ idx >= 0 /\ idx < Len(space)                                       \* always a valid row
   /\ space[idx + 1] = ClipVec(mins, maxs, v)                            \* own row / nearest in each coordinate
+
+(* ---- sampled observations of boxes too large to list ----------------------- *)
+(* nrows = observed number of rows; rows = sampled 1-based row numbers, vecs = the rows found there *)
+SampledSpaceOK(mins, maxs, nrows, rows, vecs) ==
+  /\ nrows = Size(mins, maxs)
+  /\ Len(rows) = Len(vecs)
+  /\ \A k \in 1..Len(rows) : rows[k] \in 1..nrows /\ vecs[k] = RowVector(mins, maxs, rows[k])
+
+(* without the listed space the row an index points at is the documented one (checked on the samples) *)
+SampledIndexOK(mins, maxs, nrows, v, idx) ==
+  /\ idx >= 0 /\ idx < nrows
+  /\ RowVector(mins, maxs, idx + 1) = ClipVec(mins, maxs, v)
 =============================================================================
